@@ -104,6 +104,23 @@ def do_triaxys(rec, rng, ws, xr, d, kind):
     ok, worst = close(got, t["E"][o], 1e-12)
     (rec.ok("triaxys", key, sample={"files": len(paths), "first_row": got[0, 0].ravel()[:3] if directional else got[0, :3]}) if ok else
      rec.bad("triaxys", key, {"worst_over_tol": worst}, "densities-differ:triaxys"))
+    if ok and directional and rng.random() < 0.4:
+        # declination-corrected read (directions turned by the magnetic variation and regridded back onto the file's
+        # direction axis): same times, frequencies and directions, and every record keeps the wave height the file holds
+        mv = float(rng.choice([10.0, -15.0, 22.5, 360.0, -7.3]))
+        outm = reader(rec, "triaxys_declination", key, lambda: ws.read_triaxys(arg, magnetic_variation=mv))
+        if outm is None:
+            return
+        same_axes = all(np.array_equal(np.asarray(outm[c].values), np.asarray(out[c].values)) for c in ("time", "freq", "dir"))
+        h0 = np.asarray(out.spec.hs().values, dtype="float64").reshape(-1)
+        h1 = np.asarray(outm.spec.hs().values, dtype="float64").reshape(-1)
+        good = same_axes and h0.shape == h1.shape and np.all(np.abs(h1 - h0) <= 1e-9 * np.maximum(h0, 1e-300))
+        if good and abs(mv) == 360.0:
+            efm = outm["efth"] if hasattr(outm, "data_vars") else outm       # (this path returns the spectra array itself)
+            good = close(efm.transpose("time", "freq", "dir").values, got, 1e-9, atol=1e-12 * float(np.abs(got).max()))[0]
+        (rec.ok("triaxys_declination", key + "|mv=%g" % mv) if good else
+         rec.bad("triaxys_declination", key + "|mv=%g" % mv, {"axes_kept": bool(same_axes), "hs_file": h0[:6], "hs_corrected": h1[:6], "magnetic_variation": mv},
+                 "declination-corrected-read-changes-wave-height-or-axes"))
 
 
 def do_ndbc(rec, rng, ws, xr, d, kind):
